@@ -104,24 +104,33 @@ Children == {o \in OperatorOps \ NotInJavaSubset : Len(SigOf(o).res) = 1}
 NestItems == {<<"nest", p, i, c>> : p \in Parents, i \in 1..3, c \in Children}
 NestOk(p, i, c) == i <= Len(SigOf(p).args) /\ SigOf(c).res[1] = SigOf(p).args[i]
 
-NS == <<FromInt(5), FromInt(3), FromInt(6), FromInt(-7), FromInt(2), FromInt(12), FromInt(-2), One, FromInt(100), Neg(One),
-        Zero, FromInt(4), FromInt(9), FromInt(-12), FromInt(31), FromInt(7)>>
+NSI == <<5, 3, 6, -7, 2, 12, -2, 1, 100, -1, 0, 4, 9, -12, 31, 7>>
+AbsI(n) == IF n < 0 THEN -n ELSE n
 (* candidate k: the leaves of the parent carry the numbers of their slots (1..3), those of the child 4..6, the     *)
-(* leaf of the enclosing operator 7.  Integers walk through NS with a different odd step per leaf; booleans take   *)
-(* one bit of k each, so that 16 candidates hold every combination.                                                *)
+(* leaf of the enclosing operator 7.  Integers walk through NSI with a different odd step per leaf; booleans take  *)
+(* one bit of k each, so that 16 candidates hold every combination.  Operand slots with a narrow domain get        *)
+(* values inside it: a shift count is taken modulo 32, the residues of a modular operation are non-negative and    *)
+(* its modulus is a prime above every operand value.                                                               *)
 BitPos(j) == CASE j \in {1, 2} -> 0 [] j = 4 -> 1 [] j = 5 -> 2 [] OTHER -> 3
-IntAt(k, j) == NS[((k * (2 * j + 1) + 3 * j * j + Offset) % Len(NS)) + 1]
-LeafAt(ty, k, j) ==
+IntAt(k, j) == NSI[((k * (2 * j + 1) + 3 * j * j + Offset) % Len(NSI)) + 1]
+ShiftOps == {"SIntShiftUp", "SIntShiftDn", "SIntBit"}
+ModOps   == {"SIntPlusMod", "SIntMinusMod", "SIntTimesMod"}
+(* the leaf in slot s of operation o; j is the leaf's number *)
+LeafAt(o, s, k, j) ==
+  LET ty == SigOf(o).args[s] IN
   Leaf(ty, CASE ty = "Bool" -> ((k + Offset) \div Pow2[BitPos(j)]) % 2 = 1
-             [] ty = "Byte" -> Abs(IntAt(k, j))
-             [] OTHER -> IntAt(k, j))
-ChildTree(c, k, j0) == Node(c, [j \in 1..Len(SigOf(c).args) |-> LeafAt(SigOf(c).args[j], k, j0 + j)])
+             [] ty = "Byte" -> FromInt(AbsI(IntAt(k, j)))
+             [] o \in ShiftOps /\ s = 2 -> FromInt(AbsI(IntAt(k, j)) % 32)
+             [] o \in ModOps /\ s = 3 -> FromInt(1009)
+             [] o \in ModOps -> FromInt(AbsI(IntAt(k, j)))
+             [] OTHER -> FromInt(IntAt(k, j)))
+ChildTree(c, k, j0) == Node(c, [j \in 1..Len(SigOf(c).args) |-> LeafAt(c, j, k, j0 + j)])
 NestTree(p, i, c, k) ==
-  Node(p, [j \in 1..Len(SigOf(p).args) |-> IF j = i THEN ChildTree(c, k, 3) ELSE LeafAt(SigOf(p).args[j], k, j)])
+  Node(p, [j \in 1..Len(SigOf(p).args) |-> IF j = i THEN ChildTree(c, k, 3) ELSE LeafAt(p, j, k, j)])
 (* the same tree as an operand of a further operator, on the side where that operator requires parentheses *)
 Wrapped(t, k) ==
-  CASE TypeOf(t) = "SInt" -> Node("SIntMinus", <<LeafAt("SInt", k, 7), t>>)
-    [] TypeOf(t) = "Bool" -> Node("BoolNE", <<LeafAt("Bool", k, 7), t>>)
+  CASE TypeOf(t) = "SInt" -> Node("SIntMinus", <<LeafAt("SIntMinus", 1, k, 7), t>>)
+    [] TypeOf(t) = "Bool" -> Node("BoolNE", <<LeafAt("BoolNE", 1, k, 7), t>>)
     [] OTHER -> t
 Good(p, i, c, t) == Member(t) /\ (Required(SlotCtx(p, i), RootOp(c)) => Distinguishes(t, i))
 (* the first PerPair candidates that are members and tell the two readings apart; when there are fewer, members *)
